@@ -4,6 +4,7 @@ package main
 // Nothing here calls into gomacro.
 
 import (
+	"encoding/json"
 	"fmt"
 	"go/ast"
 	"go/constant"
@@ -236,6 +237,11 @@ func coqCval(v constant.Value) string {
 	case constant.Bool:
 		return "(CBool " + coqBool(constant.BoolVal(v)) + ")"
 	case constant.Float:
+		// the decimal form encoding/json writes for the float64 value (the exact form, a fraction, is kept in c_exact)
+		f, _ := constant.Float64Val(v)
+		if b, err := json.Marshal(f); err == nil {
+			return "(CFloat " + coqStr(string(b)) + ")"
+		}
 		return "(CFloat " + coqStr(v.ExactString()) + ")"
 	default:
 		return "(COtherVal " + coqStr(v.ExactString()) + ")"
